@@ -158,9 +158,10 @@ def run(repo: Repo, rep: Report, tier: str) -> None:
     rep.check(ok, "C02-R2", "_place_single_condition_decider forwards the flag from the node's metadata", "; ".join(a[:50] for a in alts_f), pd.loc())
     # any(bundle) / all(bundle) compared with a signal: the wildcard counts every signal on the wire, the scalar included, unless the two are separated
     raises = []
+    cpd14 = canon(pd)
     for iff in [n for n in walk_local(pd.node) if isinstance(n, ast.If)]:
-        t = norm(iff.test)
-        if "signal-anything" in t and "signal-everything" in t and "isinstance(right_operand, str)" in t \
+        t = cpd14.text(iff.test, iff)
+        if "signal-anything" in t and "signal-everything" in t and "isinstance(self.signal_analyzer.get_operand_for_combinator(op.right), str)" in t \
                 and any(isinstance(b, ast.Assign) and "needs_wire_separation" in norm(b.targets[0]) and norm(b.value) == "True" for b in iff.body):
             raises.append(iff)
     rep.check(bool(raises), "C02-R14", "_place_single_condition_decider separates a wildcard comparison from its scalar", "flag raised for (anything|everything CMP signal)" if raises else
